@@ -275,6 +275,18 @@ def run_tasks(pid, mod, tasks, jobs):
     ctx = mp.get_context('fork')
     pending = collections.deque(tasks)
     running = {}
+    try:
+        yield from _run_tasks(pid, mod, pending, running, jobs, ctx, mpc)
+    finally:
+        # the consumer stopped early (--fail-fast): end the workers
+        for p, rconn, _, _ in running.values():
+            if p.is_alive():
+                p.terminate()
+            p.join()
+            rconn.close()
+
+
+def _run_tasks(pid, mod, pending, running, jobs, ctx, mpc):
     while pending or running:
         while pending and len(running) < jobs:
             task = pending.popleft()
@@ -448,6 +460,10 @@ def main(argv=None):
     ap.add_argument('--jobs', type=int,
                     default=int(os.environ.get('VERIF_JOBS', '0')) or
                     min(16, os.cpu_count() or 1))
+    ap.add_argument('--fail-fast', action='store_true',
+                    help='debug: stop exploring after the first task that '
+                         'reports an unlisted violation (evidence says '
+                         'capped)')
     ap.add_argument('--only', default='',
                     help='debug: run only shards whose repr contains this '
                          'text (evidence then says exhaustive=false)')
@@ -521,6 +537,10 @@ def main(argv=None):
         viols.extend(r['viol'])
         if len(samples) < 3 and r['samples']:
             samples.append(r['samples'][0])
+        if args.fail_fast and any(
+                not any(matches(f, v) for f in findings) for v in r['viol']):
+            capped = True
+            break
     if harness_errors:
         for h in harness_errors[:3]:
             print('HARNESS-ERROR in shard', h['shard'])
